@@ -7,7 +7,7 @@
     WB.Abi.Check.check_dealloc / check_post_return evaluated by the check on the REAL streams; two genuine
     defects it found are repaired (known-findings.txt: fixed). *)
 From Coq Require Import List NArith Bool.
-From WB Require Import Wit.Ty Abi.Sig Abi.Instr Abi.Gen Abi.Check Abi.DeallocProofs Abi.GenDiscipline Abi.GenDeallocDiscipline.
+From WB Require Import Wit.Ty Abi.Sig Abi.Instr Abi.Gen Abi.Check Abi.DeallocProofs Abi.GenDiscipline Abi.GenDeallocDiscipline Abi.SigProofs Abi.GenFlatDealloc.
 Import ListNotations.
 
 Theorem C03_lists_cleanup_iff_heap : forall t, needs_deallocate DLists t = has_heap t.
@@ -34,6 +34,26 @@ Theorem C03_memory_cleanup_traversal_is_stack_neutral : forall w t addr off s st
 Proof. exact dealloc_indirect_ok. Qed.
 
 Print Assumptions C03_memory_cleanup_traversal_is_stack_neutral.
+(** The direct-operand cleanup (deallocate), for EVERY type that fits the 16-slot buffer and whose flags types have
+    1..32 members (what the component model admits), both cleanup modes: given exactly the flattened number of
+    operands it reaches no panic site and consumes exactly those operands.  The flags hypothesis was forced by the
+    proof: deallocate pops ONE operand for a flags value whatever its word count, so a (CM-invalid) two-word flags
+    type leaves an operand behind - [C03_direct_cleanup_wide_flags_refuted]. *)
+Theorem C03_direct_cleanup_consumes_flattened_operands : forall w t,
+  flags_one_word t = true -> length (wflat t) <= 16 ->
+  forall s top st, stack s = top ++ st -> length top = length (wflat t) ->
+  ok_with (dealloc w t) s (fun _ s' => stack s' = st /\ frame s s').
+Proof. exact dealloc_ok. Qed.
+
+Theorem C03_direct_cleanup_wide_flags_refuted :
+  match dealloc DLists (TFlags 40) {| stack := [1; 0]; nxt := 2; evs := []; retp := None; realloc := None |} with
+  | Ok _ s' => stack s' = [0]
+  | Err _ => False
+  end.
+Proof. exact dealloc_wide_flags_leaves_an_operand. Qed.
+
+Print Assumptions C03_direct_cleanup_consumes_flattened_operands.
+Print Assumptions C03_direct_cleanup_wide_flags_refuted.
 Print Assumptions C03_lists_cleanup_iff_heap.
 Print Assumptions C03_own_cleanup_iff.
 Print Assumptions C03_post_return_iff_heap.
